@@ -203,12 +203,16 @@ def _spec(tier):
         'forged': st.one_of(st.just([]), st.lists(_forged(), min_size=1, max_size=3))})
     fw = st.fixed_dictionaries({'send': st.lists(st.sampled_from(NAMES), max_size=2, unique=True),
                                 'recv': st.lists(st.sampled_from(NAMES), max_size=2, unique=True),
+                                'raise': st.one_of(st.just([]), st.just([]), st.lists(st.sampled_from(NAMES), min_size=1, max_size=1)),
                                 'always': st.booleans()})
     fws = st.one_of(st.just({}), st.dictionaries(st.sampled_from(['B', 'A0', 'A1']), fw, max_size=3))
     sizes = st.lists(st.one_of(st.integers(1, 40), st.integers(1, 4096), st.sampled_from([1, 2, 3, 4095, 4096, 4096, 4096])), min_size=1, max_size=6)
 
     def finish(d):
         c = d['clients']
+        for f in d['fw'].values():
+            if len(set(f['recv']) | set(f.get('raise', ()))) >= len(NAMES):
+                f['raise'] = []        # some name always gets through
         return dict(d, waves=[dict(w, sends=[_finish_event(e, c) for e in w['sends']]) for w in d['waves']])
 
     return st.fixed_dictionaries({
@@ -495,7 +499,7 @@ class C19(Prop):
             n = len(follow)
             uid, cid = UID0 + 9000 + n, FOLLOW_ID + n
             # the firewalls deny at most two of the three names
-            nm = [x for x in NAMES if x not in spec['fw'].get(proc, {}).get('recv', ())][0]
+            nm = [x for x in NAMES if x not in spec['fw'].get(proc, {}).get('recv', ()) and x not in spec['fw'].get(proc, {}).get('raise', ())][0]
             e = Event.create(nm, uid, 'after-hostile')
             e.channels = ('c0',)
             scripts[uid] = {'kind': 'plain', 'meta': {}, 'tamper_call': {}}
@@ -602,6 +606,13 @@ class C19(Prop):
                     return bad('firewall-send', 'event %d (%s) denied by the send firewall of %s was written to %r' % (uid, sc['name'], src, wire_calls[uid]))
                 if got:
                     return bad('firewall-send', 'event %d denied by the send firewall of %s was dispatched on %s' % (uid, src, got[0][0]))
+                continue
+            if not deny_r and sc['name'] in spec['fw'].get(dst, {}).get('raise', ()):
+                # the receive predicate raises for this event: it did not let it through (what the sender is told is not
+                # asserted); events next to it in the stream are judged like any other
+                classes.add('fw-recv-raises')
+                if got:
+                    return bad('firewall-receive', 'event %d (%s): the receive firewall of %s raised, yet the event was dispatched' % (uid, sc['name'], dst))
                 continue
             if deny_r:
                 classes.add('fw-recv-deny')
